@@ -2,7 +2,7 @@ import builtins
 import math
 import numbers
 from collections.abc import Callable, Iterable, Iterator, Sequence
-from dataclasses import dataclass, replace
+from dataclasses import dataclass
 from functools import partial
 from itertools import chain, product
 from numbers import Integral, Number
@@ -27,7 +27,6 @@ from cubed.primitive.blockwise import ChunkKey, FunctionArgs
 from cubed.primitive.blockwise import blockwise as primitive_blockwise
 from cubed.primitive.blockwise import general_blockwise as primitive_general_blockwise
 from cubed.primitive.memory import get_buffer_copies
-from cubed.primitive.types import CubedArrayProxy
 from cubed.spec import spec_from_config
 from cubed.storage.store import is_storage_array, open_storage_array
 from cubed.storage.zarr import LazyZarrArray, lazy_zarr_array
@@ -270,18 +269,16 @@ def _store_array(
                 **blockwise_kwargs,
             )
         else:
-            # TODO: allow late assignment of array stores so we don't have to re-wire
-            # and update write proxy
-
-            # replace source target array with new target
-            source._zarray = target
+            # Re-target the source array in place. The lazy Zarr array object is shared by
+            # the operation that writes it and by every operation that reads it - including
+            # operations in the plans of arrays that were derived from source earlier - so
+            # pointing that one object at the new location keeps all of them consistent.
+            lazy_source = source._zarray
+            lazy_source.store = target.store
+            lazy_source.path = target.path or None
+            lazy_source.kwargs = target.kwargs if isinstance(target, LazyZarrArray) else {}
             # a second store of this array must copy it rather than re-target it again
             source._stored_to_target = True
-
-            # replace plan target array with new target
-            for n, d in source._plan.dag.nodes(data=True):
-                if n == source.name and "target" in d:
-                    d["target"] = target
 
             # update predecessor ops
             from cubed.core.optimization import predecessors_unordered
@@ -293,39 +290,11 @@ def _store_array(
                 if n not in predecessor_ops:
                     continue
                 if "primitive_op" in d:
-                    # Replace the primitive op with a copy that writes to the new target,
-                    # and mark it as not fusable with successors as store must be written.
-                    # The op object is shared with the plans of arrays already derived from
-                    # source, which still read source from its previous location, so it must
-                    # not be changed in place.
+                    # mark as not fusable with successors as store must be written
                     op = d["primitive_op"]
-                    config = op.pipeline.config
-
-                    # replace write proxy target array with new target
-                    writes_map = dict(config.writes_map)
-                    if source.name in writes_map:
-                        writes_map[source.name] = CubedArrayProxy(
-                            target, writes_map[source.name].chunks
-                        )
-                    return_writes_stores = (
-                        config.return_writes_stores
-                        or blockwise_kwargs.get("return_writes_stores", False)
-                    )
-                    new_pipeline = replace(
-                        op.pipeline,
-                        config=replace(
-                            config,
-                            writes_map=writes_map,
-                            return_writes_stores=return_writes_stores,
-                        ),
-                    )
-                    d["primitive_op"] = replace(
-                        op,
-                        pipeline=new_pipeline,
-                        target_array=target,
-                        fusable_with_successors=False,
-                    )
-                    d["pipeline"] = new_pipeline
+                    op.fusable_with_successors = False
+                    if blockwise_kwargs.get("return_writes_stores", False):
+                        op.pipeline.config.return_writes_stores = True
             # return the updated source
             return source
 
